@@ -176,6 +176,11 @@ PORTS = [b"", b"0", b"1", b"80", b"443", b"8080", b"65535", b"65536", b"0080", b
          b"99999999999999999999999"]
 
 
+# schemes and ports that mean something to software (defaults, canonical forms): components are opaque to C13
+KNOWN_SCHEMES = [b"http", b"https", b"HTTP", b"Https", b"ws", b"wss", b"ftp", b"ssh", b"s3", b"file", b"mqtt", b"amqps"]
+KNOWN_PORTS = [b"80", b"443", b"21", b"22", b"8080", b"8443", b"1883", b"5671"]
+
+
 def random_comp(rng):
     for _ in range(50):
         hs = rng.random() < 0.6
@@ -190,7 +195,10 @@ def random_comp(rng):
         path = b""
         if rng.random() < 0.7:
             path = b"/" + rstr(rng, PATH_CH, 0, 12)
-        c = comp(hs, rstr(rng, SCHEME_CH, 0, 6) if hs else b"", hu, rstr(rng, USER_CH, 0, 6) if hu else b"", hw,
+        known = hs and rng.random() < 0.3
+        if known and hp and rng.random() < 0.7:
+            port = rng.choice(KNOWN_PORTS)
+        c = comp(hs, (rng.choice(KNOWN_SCHEMES) if known else rstr(rng, SCHEME_CH, 0, 6)) if hs else b"", hu, rstr(rng, USER_CH, 0, 6) if hu else b"", hw,
                  rstr(rng, PW_CH, 0, 6) if hw else b"", rstr(rng, V6_CH if v6 else HOST_CH, 0, 16), v6, hp, port, path, hq,
                  random_items(rng) if hq else [])
         if in_domain(c):
